@@ -105,6 +105,43 @@ ExactV(e) ==
                    ELSE FirstBad([k \in DOMAIN e.permute |-> ExactPermuteV(c, e.permute[k])]))))
 
 -----------------------------------------------------------------------------
+(* exact zeros: every call either raises the documented ValueError (where the spec says the cosine is undefined)   *)
+(* or returns the value of the definition -- never NaN, never a silent number for an undefined cosine.             *)
+RejectV(r, must, name) ==       \* "ok", or the clause that fails; name prefixes the clause
+    IF must THEN (IF r.raised /\ r.exc = "ValueError" THEN "ok"
+                  ELSE IF r.raised THEN name \o "WrongException"
+                  ELSE IF ~IsFin(r.val) THEN name \o "ZeroColumnNaN"
+                  ELSE name \o "ZeroColumnNotRejected")
+    ELSE IF r.raised THEN name \o "Raised" ELSE "ok"
+ZeroCorrV(c, r) ==
+    With(RejectV(r, IF r.method = "stacked" THEN MustRejectStacked(c) ELSE MustRejectPerMode(c), "Corr"), LAMBDA v :
+      IF v # "ok" \/ r.raised THEN v
+      ELSE IF ~IsFin(r.val) THEN "CorrFinite"
+      ELSE IF r.val < 0 \/ r.val > One + ExactTol THEN "CorrRange"
+      ELSE "ok")
+CorrRecord(e, sw) == [m \in Methods |-> e.corr[CHOOSE k \in DOMAIN e.corr : e.corr[k].method = m /\ e.corr[k].swap = sw].val]
+ZerosV(e) ==
+    LET c == e.cfg IN
+    IF ~ValidZeros(c) THEN "InDomain"
+    ELSE IF {<<e.corr[k].method, e.corr[k].swap>> : k \in DOMAIN e.corr} # Methods \X BOOLEAN THEN "CorrMethods"
+    ELSE IF {<<e.cong[k].abs, e.cong[k].form, e.cong[k].swap>> : k \in DOMAIN e.cong} # CongForms(c) THEN "CongForms"
+    ELSE IF {<<e.permute[k].ref, e.permute[k].target>> : k \in DOMAIN e.permute} # {<<"A", "B">>, <<"B", "A">>} THEN "PermuteForms"
+    ELSE With(FirstBad([k \in DOMAIN e.corr |-> ZeroCorrV(c, e.corr[k])]), LAMBDA v1 :
+         IF v1 # "ok" THEN v1
+         ELSE With(FirstBad([k \in DOMAIN e.cong |->
+                       With(RejectV(e.cong[k], MustRejectPerMode(c), "Cong"), LAMBDA v :
+                            IF v # "ok" \/ e.cong[k].raised THEN v ELSE ExactCongV(c, e.cong[k]))]), LAMBDA v2 :
+              IF v2 # "ok" THEN v2
+              ELSE With(FirstBad([k \in DOMAIN e.permute |->
+                            With(RejectV([raised |-> e.permute[k].raised, exc |-> e.permute[k].exc, val |-> 0], MustRejectPerMode(c), "Permute"), LAMBDA v :
+                                 IF v # "ok" \/ e.permute[k].raised THEN v ELSE ExactPermuteV(c, e.permute[k]))]), LAMBDA v3 :
+                   IF v3 # "ok" THEN v3
+                   \* no zero column anywhere (zero row only): the exact values of the definition
+                   ELSE IF MustRejectPerMode(c) THEN "ok"
+                   ELSE With(ExactCorrV(c, CorrRecord(e, FALSE)), LAMBDA v4 :
+                        IF v4 # "ok" THEN v4 ELSE ExactCorrV(c, CorrRecord(e, TRUE))))))
+
+-----------------------------------------------------------------------------
 (* generic family: logged cosine matrices (scale 1e6), brute-force optimality inside TLC *)
 RECURSIVE ProdQ(_, _, _, _, _)
 ProdQ(cos, a, b, m, abs) ==
@@ -215,6 +252,7 @@ LevExactV(e) ==
 Verdict(e) ==
     CASE e.kind = "exact"    -> ExactV(e)
       [] e.kind = "generic"  -> GenericV(e)
+      [] e.kind = "zeros"    -> ZerosV(e)
       [] e.kind = "metric"   -> MetricV(e)
       [] e.kind = "lev"      -> LevV(e)
       [] e.kind = "levexact" -> LevExactV(e)
